@@ -7,6 +7,7 @@ require (
 	github.com/anishathalye/porcupine v1.3.0
 	github.com/boltdb/bolt v1.3.1
 	github.com/gorhill/cronexpr v0.0.0-20180427100037-88b0669f7d75
+	gopkg.in/yaml.v2 v2.3.0
 )
 
 require (
@@ -21,7 +22,6 @@ require (
 	github.com/robertkrimen/otto v0.0.0-20191219234010-c382bd3c16ff // indirect
 	gopkg.in/inf.v0 v0.9.1 // indirect
 	gopkg.in/sourcemap.v1 v1.0.5 // indirect
-	gopkg.in/yaml.v2 v2.3.0 // indirect
 )
 
 replace github.com/Comcast/rulio => /repo
